@@ -728,6 +728,73 @@ func c09All(c *Check, P string, r *RouterRoles2) {
 			}
 		}
 	}
+	// every registration call of the Router's API reaches its list: an exported method with a variadic parameter of the
+	// list's element type stores to that list, itself or through the private function it hands the parameter to
+	var plugF *types.Var
+	for i := 0; i < st.NumFields(); i++ {
+		if sl, isS := st.Field(i).Type().(*types.Slice); isS && sl.Elem().String() == msgPkg+".RouterPlugin" {
+			plugF = st.Field(i)
+		}
+	}
+	elemOf := map[*types.Var]string{mwF: msgPkg + ".HandlerMiddleware", pdF: msgPkg + ".PublisherDecorator", sdF: msgPkg + ".SubscriberDecorator"}
+	if plugF != nil {
+		elemOf[plugF] = msgPkg + ".RouterPlugin"
+	}
+	napi := 0
+	for f, elem := range elemOf {
+		for i := 0; i < r.R.NumMethods(); i++ {
+			fn := c.P.SSA.FuncValue(r.R.Method(i).Origin())
+			if fn == nil || fn.Object() == nil || !fn.Object().Exported() || !fn.Signature.Variadic() {
+				continue
+			}
+			last := fn.Params[len(fn.Params)-1]
+			sl, isS := last.Type().(*types.Slice)
+			if !isS || sl.Elem().String() != elem {
+				continue
+			}
+			// a registration with further parameters (a handler with its middlewares) is not a plain list registration
+			if len(fn.Params) != 2 {
+				continue
+			}
+			napi++
+			reaches := len(FieldStores(fn, f)) > 0
+			if !reaches {
+				for _, cl := range CallsIn(fn) {
+					cal := CalleeFn(cl.Common())
+					if cal == nil || cal.Pkg != fn.Pkg || len(FieldStores(cal, f)) == 0 {
+						continue
+					}
+					for _, a := range cl.Common().Args {
+						if FromParam(last)(a) {
+							reaches = true
+						}
+					}
+				}
+			}
+			c.Report(reaches, P+".O1", "REGISTRATION-REACHES-THE-LIST", fn, fn.Pos(), fn.Name(), "what is passed to "+fn.Name()+" is appended to the router's "+f.Name()+" list (by the method or by the private function it hands its argument to)")
+		}
+	}
+	c.Floor(P+".O1", "registration methods of the Router (variadic, one list each)", napi, 3)
+	// (information) whether the middleware list is extended under the lock its readers take the snapshot under
+	for _, fn := range r.Funcs {
+		for _, stv := range FieldStores(fn, mwF) {
+			if allocatesNamed(fn, r.R) {
+				continue
+			}
+			held := r.LA.Held(stv)
+			hasW := false
+			for _, m := range held {
+				if m == 'W' {
+					hasW = true
+				}
+			}
+			// the property quantifies over registration sequences, not over registrations that run concurrently with
+			// starting handlers: an unlocked append is reported for information only
+			if !hasW {
+				c.Note(P+".O1", "MIDDLEWARE-APPEND-LOCKED", fn, stv.Pos(), "store to the middleware list", "the middleware list is extended without a lock held in write mode (handlers take their snapshot of it under the middlewares lock; a registration concurrent with a starting handler races) — outside this property, which is stated over registration sequences")
+			}
+		}
+	}
 	c17ForwarderMiddlewares(c, P+".O3")
 	// registration records: struct literals with IsRouterLevel / HandlerName
 	nrec := 0
@@ -1080,6 +1147,30 @@ func c10RouterSafety(c *Check, P string, r *RouterRoles2) {
 					}
 				}
 			}
+		}
+		// a name is registered once: the store into the map lies behind the edge on which the lookup of that name found
+		// nothing (a second registration under the same name would orphan the first handler, which Close still waits for)
+		for _, a := range la.Accesses(hmap) {
+			mu, isMU := a.Ins.(*ssa.MapUpdate)
+			if !isMU || HomeFn(a.Ins.Parent()) != r.AddHandler {
+				continue
+			}
+			fn := a.Ins.Parent()
+			found, _ := BoolEdges(fn, func(x ssa.Value) bool {
+				e, isE := x.(*ssa.Extract)
+				if !isE || e.Index != 1 {
+					return false
+				}
+				lk, isLk := e.Tuple.(*ssa.Lookup)
+				return isLk && lk.CommaOk && AllOrigins(lk.X, IsFieldLoad(hmap)) && sameValue(lk.Index, mu.Key)
+			})
+			okNew := len(found) > 0
+			for _, e := range found {
+				if ReachEdge(e, nil)[a.Ins] {
+					okNew = false
+				}
+			}
+			c.Report(okNew, P+".O2", "REGISTER-ONLY-NEW-NAME", fn, a.Ins.Pos(), "registration of the handler", "a handler is stored under its name only when the lookup of that name found no handler: from the 'found' edge the registration is unreachable (it panics)")
 		}
 		if c.Floor(P+".O2", "lock held when AddHandler registers the handler", b2i(lockID != ""), 1) {
 			// scope: the functions of the lifecycle the property speaks about (registration, start, run, stop, close) and what
